@@ -283,8 +283,8 @@ def nested_cases(tier, rng):
     cases = []
     for _ in range(n):
         a = random_value(rng, rng.randint(1, 3), leaves)
-        if is_huge(a) and rng.random() < 0.9:
-            # keep a few: they go to the resource run through their classification
+        if is_huge(a):
+            # huge spans are probed deliberately by resource_cases under a short deadline
             continue
         op = rng.choice(ops2 + ops1)
         imp = rng.choice("SB")
@@ -296,6 +296,8 @@ def nested_cases(tier, rng):
             cases.append("O %s A %s %s %s" % (imp, op, a, rng.choice(idx)))
         else:
             b = a if rng.random() < 0.3 else random_value(rng, rng.randint(1, 3), leaves)
+            if is_huge(b):
+                b = a
             cases.append("O %s A %s %s %s" % (imp, op, a, b))
             cases.append("O %s A %s %s %s" % ("B" if imp == "S" else "S", op, a, b))
     return cases
@@ -471,6 +473,32 @@ ACCESS_INDEXES = ["0", "1", "2", "3", "5", "(0-1)", "0.5", "1.5", "2147483647", 
                   "4294967296.0", "(1e308 * 10)", "2.0"]
 
 
+RANGE_POSITIONS_CAP = 10 ** 4
+
+
+def tame_ranges(src):
+    """Random programs must not list or render more than about 10^4 positions of a range (that is a question of
+    time, probed deliberately by resource_cases, not of panics): in a program that builds a range, number literals
+    of magnitude >= 100 become small ones and the operators that amplify a number (* ** <<) become +, so that no
+    range endpoint computed from at most a handful of literals exceeds the cap."""
+    if ".." not in src:
+        return src
+    import re
+
+    def small(m):
+        t = m.group(0)
+        try:
+            v = abs(float(t))
+        except (ValueError, OverflowError):
+            v = float("inf")
+        if v < 100:
+            return t
+        return "7.5" if ("." in t or "e" in t) else "31"
+    out = re.sub(r"\d+(\.\d+)?(e\d+)?", small, src)
+    out = out.replace(" ** ", " + ").replace(" << ", " + ").replace(" * ", " + ")
+    return out
+
+
 def program_cases(tier, rng):
     progs = []
     # every cast source x every cast target
@@ -522,7 +550,7 @@ def program_cases(tier, rng):
         e = gen_expr(rng, rng.randint(1, 4))
         if e.startswith("(") and e.endswith(")") and rng.random() < 0.7:
             e = e[1:-1]
-        progs.append(e)
+        progs.append(tame_ranges(e))
     cases = []
     for n, p in enumerate(progs):
         src = ",".join("%x" % ord(c) for c in p) or "-"
